@@ -539,18 +539,21 @@ def gen_unicode(quick):
             else:
                 names = list(vs)
             sym = [(k, n) for k in KINDS for n in names]
+            primary = ds == ("uniA" if fi < 3 else "uniB")      # per family one of the two sets (two families valued, three not)
             for n in (1, 2):
                 for m in itertools.product(sym, repeat=n):
+                    if quick and not primary and n == 2 and m[0][1] == m[1][1]:
+                        continue        # quick, the family's other set: pairs of DIFFERENT spellings only
                     for layout in itertools.product((0, 1, 2), repeat=n - 1):
                         yield (part, rows_from(m, layout, None), 0)
             if quick:
-                # length 3: three different spellings (every order) x every kind triple, one marker per row; for each
-                # family in one of the two definition sets (two families valued, three not)
-                if ds != ("uniA" if fi < 3 else "uniB"):
+                # length 3: an Onset, then two more markers of any kind, in three different spellings (every order), one
+                # marker per row; for each family in its primary set
+                if not primary:
                     continue
                 for order in itertools.permutations(names, 3):
-                    for kinds in itertools.product(KINDS, repeat=3):
-                        yield (part, rows_from(list(zip(kinds, order)), (2, 2), None), 0)
+                    for kinds in itertools.product(KINDS, repeat=2):
+                        yield (part, rows_from(list(zip(("Onset",) + kinds, order)), (2, 2), None), 0)
             else:
                 for m in itertools.product(sym, repeat=3):
                     for layout in itertools.product((0, 1, 2), repeat=2):
@@ -786,11 +789,13 @@ def run(w: Workload):
            bound="definition names with non-ASCII letters, families %s (skipped because the schema's name rules refuse a "
                  "spelling: %s); spellings of a family = declared form, upper(), casefold(), lower() (%s); every family declared "
                  "without a value in one definition set and with '/#' in the other; per family and set: every marker sequence "
-                 "of length <= 2 over {Onset,Offset,Inset} x spellings x every layout (same row | equal-onset row | later row), "
+                 "of length <= 2 over {Onset,Offset,Inset} x spellings x every layout (same row | equal-onset row | later row)%s, "
                  "length 3: %s; plus two families side by side (18 files per neighbouring pair and set); oracle: the fold of "
                  "the property with names compared by casefold(), i.e. the verdicts of 'Aa'/'aa'/'AA' in the same pattern"
                  % (usable, skipped or "none", {b: uni_variants(b, 3 if w.quick else None) for b in usable},
-                    "three different spellings in every order x every kind triple, one marker per row, one set per family"
+                    " (quick: in one of the two sets of a family only the pairs of different spellings)" if w.quick else "",
+                    "Onset + two markers of every kind, three different spellings in every order, one marker per row, one set "
+                    "per family"
                     if w.quick else "every sequence x every layout, plus a second value on one spelling"), exhaustive=True)
     w.part("long: unicode names", cases=len(long_cases) - n_long_ascii,
            bound="seeded random files, 24-60 rows, names drawn from all spellings of all usable families (valued families also "
